@@ -19,6 +19,7 @@ mod c18;
 mod c19;
 mod c20;
 mod common;
+mod framing;
 
 use common::*;
 use std::io::Write;
